@@ -955,3 +955,114 @@ func VerifC04_MySQLSetVariables() {
 		verif.Assert(strings.Contains(fwd, "'keep'"), "uncovered-assignment-unchanged")
 	}
 }
+
+// VerifC12_MySQLBinaryRowRelay: a binary-protocol (prepared statement) row of columns the configuration does not cover
+// is relayed byte for byte, whatever the column's type. The oracle is the wire size of each type from the MySQL
+// protocol description (TINY 1; SHORT, YEAR 2; INT24, LONG, FLOAT 4; LONGLONG, DOUBLE 8; everything else carries its
+// own length), not the proxy's table.
+func VerifC12_MySQLBinaryRowRelay() {
+	store := verifKeys()
+	h, ctx, _ := verifProxy(store, "A", config.CryptoEnvelopeTypeAcraBlock)
+	type wire struct {
+		t    base_mysql.Type
+		size int // 0: length-prefixed
+	}
+	kinds := []wire{
+		{base_mysql.TypeTiny, 1}, {base_mysql.TypeShort, 2}, {base_mysql.TypeYear, 2}, {base_mysql.TypeInt24, 4},
+		{base_mysql.TypeLong, 4}, {base_mysql.TypeFloat, 4}, {base_mysql.TypeLongLong, 8}, {base_mysql.TypeDouble, 8},
+		{base_mysql.TypeDate, 0}, {base_mysql.TypeDatetime, 0}, {base_mysql.TypeTime, 0}, {base_mysql.TypeNewDecimal, 0},
+		{base_mysql.TypeVarchar, 0}, {base_mysql.TypeBit, 0},
+	}
+	k := kinds[verif.Choose("type", 0, len(kinds)-1)]
+	var value []byte
+	if k.size > 0 {
+		// the proxy prints a number and parses it back (64-bit division by ten on symbolic values is out of reach,
+		// see DESIGN.md): the numeric values are boundary representatives, the solver chooses among them
+		switch {
+		case k.t == base_mysql.TypeFloat:
+			value = []byte{0, 0, 0xc0, 0x3f}
+		case k.t == base_mysql.TypeDouble:
+			value = []byte{0, 0, 0, 0, 0, 0, 0xf8, 0x3f}
+		case k.t == base_mysql.TypeYear:
+			value = []byte{0xe8, 0x07}
+		default:
+			value = make([]byte, k.size)
+			switch verif.Choose("number", 0, 2) {
+			case 0:
+				value[0] = 5
+			case 1: // -1
+				for i := range value {
+					value[i] = 0xff
+				}
+			case 2: // 0x..3930: bytes that are ASCII digits
+				for i := range value {
+					value[i] = '0' + byte(i)
+				}
+				if k.t == base_mysql.TypeInt24 {
+					value[3] = 0
+				}
+			}
+		}
+	} else {
+		body := verif.Bytes("body", verif.Choose("len", 0, 4))
+		value = append([]byte{byte(len(body))}, body...)
+	}
+	// header, null bitmap (3 columns: one byte), id, the typed column, a string column
+	bitmap := byte(0)
+	nullTyped := verif.Choose("typed-null", 0, 1) == 1
+	row := []byte{OkPacket, 0}
+	row = append(row, 7, 0, 0, 0) // id: LONG 7
+	if nullTyped {
+		bitmap |= 1 << 3
+	} else {
+		row = append(row, value...)
+	}
+	row[1] = bitmap
+	row = append(row, 2)
+	row = append(row, verif.Bytes("plain", 2)...)
+	fields := []*ColumnDescription{{Name: []byte("id"), Type: base_mysql.TypeLong}, {Name: []byte("n"), Type: k.t}, {Name: []byte("plain"), Type: base_mysql.TypeVarString}}
+	out, err := h.processBinaryDataRow(ctx, verifDup(row), fields)
+	verif.Reach("row-processed")
+	verif.Assert(err == nil, "well-formed-row-accepted")
+	if err != nil {
+		return
+	}
+	verif.Assert(len(out) == len(row), "relayed-row-length")
+	verif.Assert(verif.Eq(out, row), "relayed-row-unchanged")
+}
+
+// VerifC09_MySQLColumnSpelling: MySQL column names are case-insensitive. However the client spells the searchable
+// column in the condition (lower, mixed or upper case, with or without the table name), the search is forwarded as
+// a comparison with the stored index and without the value.
+func VerifC09_MySQLColumnSpelling() {
+	store := verifKeys()
+	env := config.CryptoEnvelopeTypeAcraBlock
+	setting := &config.BasicColumnEncryptionSetting{Name: "secret", UsedClientID: "A", CryptoEnvelope: &env, Searchable: true}
+	h, ctx, parser := verifProxyWith(store, "A", setting)
+	lit := verifMarker("literal", 2)
+	obj, changed, err := h.queryObserverManager.OnQuery(ctx, emysql.NewOnQueryObjectFromQuery(verifFill("insert into t (id, secret, plain) values (1, '%s', 'keep')", lit), parser))
+	if err != nil || !changed {
+		verif.Assert(false, "write-rewritten")
+		return
+	}
+	stored, ok := verifStoredHexLiteral(obj.Query())
+	if !ok {
+		verif.Assert(false, "protected-value-is-a-hex-literal")
+		return
+	}
+	spellings := []string{"secret", "Secret", "SECRET", "t.Secret", "t.secret"}
+	col := spellings[verif.Choose("spelling", 0, len(spellings)-1)]
+	sobj, changed, err := h.queryObserverManager.OnQuery(ctx, emysql.NewOnQueryObjectFromQuery(verifFill("select id from t where "+col+" = '%s'", lit), parser))
+	verif.Reach("search-observed")
+	verif.Assert(err == nil && changed, "search-rewritten")
+	if err != nil || !changed {
+		return
+	}
+	fwd := sobj.Query()
+	verif.Assert(!verif.Contains([]byte(fwd), lit), "search-value-not-forwarded")
+	index, ok := verifHexNumber(fwd)
+	verif.Assert(ok, "search-compares-with-a-hex-number")
+	if ok {
+		verif.Assert(len(index) > 0 && len(index) <= len(stored) && verif.Eq(index, stored[:len(index)]), "search-index-is-the-stored-prefix")
+	}
+}
